@@ -35,42 +35,42 @@ let run_script cfgw ops =
     let c = { c_cap = z cap; c_wf0 = (wf0 = "1"); c_wfThr = z thr; c_probing = z probing; c_bound = z bound; c_pol = z pol;
               c_logStart = z logstart; c_hash = z hash } in
     if not (HashInstProofs.cfg_valid_b c) then print_endline "?cfg-outside-the-proved-class" else
-    let s = ref init_cfg and t = ref init_cfg in
+    let w = ref winit_cfg in
     let buf = Buffer.create 256 in
     let emit x = if Buffer.length buf > 0 then Buffer.add_char buf ' '; Buffer.add_string buf x in
-    let st r o = let (s', x) = step_cfg c !r o in r := s'; x in
-    let all r = match st r OTraverse with RList l -> l | _ -> [] in
+    let ws o = let (w', x) = wstep_cfg c !w o in w := w'; x in
+    let st o = ws (WA o) in
+    let all () = match st OTraverse with RList l -> l | _ -> [] in
     let rec go = function
       | [] -> ()
-      | ("I" | "A") :: k :: v :: r -> emit (show_out (st s (OInsert (z k, z v, None)))); go r
-      | "J" :: k :: v :: n :: r -> emit (show_out (st s (OInsert (z k, z v, Some (nat_of_int (int_of_string n)))))); go r
-      | "F" :: k :: r -> emit (show_out (st s (OFind (z k)))); go r
-      | ("R" | "P") :: k :: r -> emit (show_out (st s (ORemove (z k)))); go r
-      | "D" :: m :: q :: r -> emit (show_out (st s (ORemoveIf (z m, z q)))); go r
+      | "I" :: k :: v :: r -> emit (show_out (st (OInsert (z k, z v, None)))); go r
+      | "A" :: k :: v :: r -> emit (show_out (st (OAddAt (z k, z v)))); go r
+      | "Z" :: k :: v :: r -> emit (match st (OInsertNoMem (z k, z v)) with RExn -> "Xz" | x -> show_out x); go r
+      | "J" :: k :: v :: n :: r -> emit (show_out (st (OInsert (z k, z v, Some (nat_of_int (int_of_string n)))))); go r
+      | "F" :: k :: r -> emit (show_out (st (OFind (z k)))); go r
+      | ("R" | "P") :: k :: r -> emit (show_out (st (ORemove (z k)))); go r
+      | "D" :: m :: q :: r -> emit (show_out (st (ORemoveIf (z m, z q)))); go r
       | "E" :: k :: r ->
-        (match st s (OFind (z k)) with
-         | ROpt (Some v) -> ignore (st s (ORemove (z k))); ignore (st s (OInsert (z k, v, None))); emit "1"
+        (match st (OFind (z k)) with
+         | ROpt (Some v) -> ignore (st (ORemove (z k))); ignore (st (OInsert (z k, v, None))); emit "1"
          | _ -> emit "0"); go r
-      | "K" :: k :: v :: r -> emit (show_out (st s (OSetVal (z k, z v)))); go r
-      | "V" :: n :: r -> emit (show_out (st s (OReserve (z n, None)))); go r
-      | "W" :: n :: b :: r -> emit (show_out (st s (OReserve (z n, Some (nat_of_int (int_of_string b)))))); go r
-      | "C" :: f :: r -> emit (show_out (st s (OClear (f = "1")))); go r
-      | "T" :: r -> emit (show_out (st s OTraverse)); go r
-      | "U" :: r -> emit (show_out (st t OTraverse)); go r
+      | "X" :: k :: r -> emit (show_out (ws (WExtract (z k)))); go r
+      | "Q" :: r -> emit (show_out (ws WInsertExt)); go r
+      | "K" :: k :: v :: r -> emit (show_out (st (OSetVal (z k, z v)))); go r
+      | "V" :: n :: r -> emit (show_out (st (OReserve (z n, None)))); go r
+      | "W" :: n :: b :: r -> emit (show_out (st (OReserve (z n, Some (nat_of_int (int_of_string b)))))); go r
+      | "C" :: f :: r -> emit (show_out (st (OClear (f = "1")))); go r
+      | "T" :: r -> emit (show_out (st OTraverse)); go r
+      | "U" :: r -> emit (show_out (ws (WB OTraverse))); go r
       | "O" :: r ->
-        let l = all s in
+        let l = all () in
         emit ("[{" ^ String.concat "," (List.map (fun (k, v) -> sz k ^ ":" ^ sz v) l) ^ "}]"); go r
-      | "N" :: r -> emit (show_out (st s OCount)); go r
-      | "Y" :: r -> emit (show_out (st s OCopy)); go r
-      | "M" :: r -> emit "u"; go r
-      | "S" :: r -> let a = !s in s := !t; t := a; emit "u"; go r
-      | "G" :: r ->
-        List.iter (fun (k, v) ->
-          match st t (OFind k) with
-          | ROpt None -> ignore (st t (OInsert (k, v, None))); ignore (st s (ORemove k))
-          | _ -> ()) (all s);
-        emit "u"; go r
-      | "H" :: r -> emit (show_shape (shape_cfg c !s)); go r
+      | "N" :: r -> emit (show_out (st OCount)); go r
+      | "Y" :: r -> emit (show_out (st OCopy)); go r
+      | "M" :: r -> emit (show_out (ws WMoveAB)); go r
+      | "S" :: r -> emit (show_out (ws WSwap)); go r
+      | "G" :: r -> emit (show_out (ws WMergeAB)); go r
+      | "H" :: r -> emit (show_shape (shape_cfg c !w.wa)); go r
       | x :: _ -> emit ("?" ^ x)
     in
     go ops; print_endline (Buffer.contents buf)
@@ -81,6 +81,9 @@ let () = iter_lines (fun line ->
   | ["cap"; pol; mc; log] ->
     let bc = two_pow (z log) in
     Printf.printf "%s %s\n" (sz (calc_capacity (z pol) (z mc) bc)) (sz (shift_fn (z pol) (z mc) bc))
+  | ["sh"; kind; hc] ->
+    let f = if kind = "0" then Gen_LimP4.pvCalcShortHash else if kind = "1" then Gen_Open2N2.pvCalcShortHash else Gen_OpenN1.ptCalcShortHash in
+    print_endline (sz (f (z hc)))
   | ["idx"; probing; hc; log; idx; probe] ->
     let bc = two_pow (z log) in
     Printf.printf "%s %s\n" (sz (start_fn (z hc) bc)) (sz (next_fn (z probing) (z idx) bc (z probe)))
